@@ -13,6 +13,14 @@ pub fn run(ctx: &Ctx) -> Outcome {
     run_and_report(ctx, &rx_rude(ctx.tier, d), &mut out);
     run_and_report(ctx, &rx_halfclosed(ctx.tier, d), &mut out);
     run_and_report(ctx, &rx_reader_gone(ctx.tier, ctx.tier.pick(7, 9)), &mut out);
+    run_and_report(ctx, &rx_probe_then_fin(ctx.tier, ctx.tier.pick(6, 8)), &mut out);
+    // ... and with the reader on another thread than the connection: two reads in a row while the
+    // connection has not flushed what it still holds
+    {
+        use crate::solo::threads::*;
+        let tc = ThreadsCfg { base_depth: ctx.tier.pick(2, 3), preemption_bound: ctx.tier.pick(Some(2), Some(3)), max_runs_per_case: ctx.tier.pick(3_000, 100_000), with_suffix: false, triples: false, doubles: true, budget_share: 0.5 };
+        explore_threads(ctx, &rx_probe_then_fin(ctx.tier, 0), &tc, &mut out);
+    }
     run_and_report(ctx, &rx_after_fin(ctx.tier, false, ctx.tier.pick(5, 7)), &mut out);
     run_and_report(ctx, &rx_after_fin(ctx.tier, true, ctx.tier.pick(5, 7)), &mut out);
     for drv in fsm_all(ctx.tier, ctx.tier.pick(5, 7)).into_iter().filter(|d| d.name.contains("finwait") || d.name.contains("inflight")) {
